@@ -84,6 +84,11 @@ def payload(t, variant='Some'):
     if t[0] == 'get':
         return ('idx', t[1], t[2])
     if t[0] == 'ite':
+        # the payload only exists on the Some side: a None alternative contributes nothing
+        if t[3] == ('none',):
+            return payload(t[2], variant)
+        if t[2] == ('none',):
+            return payload(t[3], variant)
         return mk_ite(t[1], payload(t[2], variant), payload(t[3], variant))
     return ('some_of', t)
 
